@@ -34,7 +34,7 @@ COMPONENTS = {
 }
 
 HOST_FAMILIES = {
-    "fr": ["lemonde.fr", "blog.lemonde.fr", "a.blog.lemonde.fr", "www.lemonde.fr", "fr"],
+    "fr": ["lemonde.fr", "blog.lemonde.fr", "a.blog.lemonde.fr", "www.lemonde.fr", "fr", "lemonde.fr."],
     "couk": ["a.co.uk", "b.a.co.uk", "www.a.co.uk", "co.uk", "uk"],
     "idn": ["télérama.fr", "xn--tlrama-bvab.fr", "www.télérama.fr", "m.xn--tlrama-bvab.fr"],
     "ghio": ["github.io", "a.github.io", "b.a.github.io", "io"],
@@ -47,8 +47,8 @@ FAMILY_ORDER = ["fr", "couk", "idn", "ghio", "lang", "special"]
 PATHS = ["", "/", "/a", "/a/", "/a/b", "/a//b", "/a/b/", "/a/index.html", "/a/./b", "/A", "/%61", "/a/b.html", "/a/b/c", "/a|b", "/a/Foo|Bar", "/a|b/c", "/a||b", "/a|/b"]
 QUERIES = ["", "x=1", "x=1&y=2", "y=2&x=1", "utm_source=z&x=1", "x=1&utm_source=z", "X=1", "hl=fr&x=1", "k=a|b"]
 FRAGMENTS = ["", "#f", "#/route", "#!/route"]
-PORTS = ["", ":80", ":443", ":8080"]
-SCHEMES = ["http://", "https://", "", "HTTP://"]
+PORTS = ["", ":80", ":443", ":8080", ":"]
+SCHEMES = ["http://", "https://", "", "HTTP://", "//"]
 AUTHS = ["", "", "", "user:pw@"]
 
 
@@ -98,7 +98,7 @@ def build_universe(crng, size):
         h = crng.choice(hosts)
         if crng.random() < 0.15:
             h = h.upper()
-        u = s + (crng.choice(AUTHS) if s else "") + h + crng.choice(PORTS) + crng.choice(paths)
+        u = s + (crng.choice(AUTHS) if s not in ("", "//") else "") + h + crng.choice(PORTS) + crng.choice(paths)
         q = crng.choice(QUERIES) if crng.random() < 0.4 else ""
         f = crng.choice(FRAGMENTS) if crng.random() < 0.3 else ""
         if q:
@@ -289,7 +289,12 @@ def parse_simple(url):
     for URLs the by-construction hierarchy does not speak about."""
     from urllib.parse import urlsplit
 
-    full = url if "://" in url else "http://" + url
+    if "://" in url:
+        full = url
+    elif url.startswith("//"):
+        full = "http:" + url  # protocol-relative: the default scheme applies
+    else:
+        full = "http://" + url
     try:
         sp = urlsplit(full)
         host = sp.hostname
@@ -298,11 +303,14 @@ def parse_simple(url):
         return None
     if not host or host != host.lower() or any(ord(ch) > 127 for ch in host) or "xn--" in host:
         return None
-    if host == "localhost" or host.replace(".", "").isdigit():
+    if host == "localhost" or host.replace(".", "").isdigit() or not all(host.split(".")):
         return None
-    netloc_host = sp.netloc.rsplit("@", 1)[-1].split(":")[0]
+    hostport = sp.netloc.rsplit("@", 1)[-1]
+    netloc_host = hostport.split(":")[0]
     if netloc_host != host:
         return None  # upper-case spelling in the URL itself
+    if ":" in hostport:
+        port = hostport.split(":", 1)[1]  # an explicit port, even an empty one, is a stem of its own
     return {
         "scheme": sp.scheme,
         "labels": tuple(host.split(".")),
@@ -603,7 +611,10 @@ class Run(object):
                 stats.event("%s|set_lru_bad|%s|%d|%s|attempt %d" % (ev.get("c"), canon(stems), k, raised, attempt))
                 stats.fault("lru_unhashable_token")
                 if raised is None:
-                    raise HarnessError("an unhashable stem was accepted")
+                    # accepted (an implementation may filter or never hash its
+                    # stems): nothing says what is stored then; stop judging
+                    stats.probe("unhashable_stem_accepted")
+                    raise StopRun()
             self.sweep("set_lru_bad")
         elif op == "other_create":
             import ural.lru as lru
@@ -711,11 +722,18 @@ class Run(object):
             raise HarnessError("unknown event %r" % (ev,))
 
 
+class StopRun(Exception):
+    pass
+
+
 def execute(case, stats, known):
     run = Run(case["config"], stats, known)
-    for ev in case["events"]:
-        run.step(ev)
-    run.sweep("end", force=True)
+    try:
+        for ev in case["events"]:
+            run.step(ev)
+        run.sweep("end", force=True)
+    except StopRun:
+        pass
 
 
 # -----------------------------------------------------------------------------
